@@ -52,3 +52,72 @@ def shrink_text(src, pred, budget=400):
         chars = ddmin(list(src), p, ''.join)
         src = ''.join(chars)
     return src
+
+
+def shrink_prog(prog, pred, budget=300):
+    """Structural shrinking of a generated program (lang.py AST): drop classes, functions, members and
+    statements, hoist blocks, while pred(prog) stays true. Deterministic; returns the smaller program."""
+    import copy
+    from .gen import walk_blocks
+    calls = [0]
+
+    def ok(p):
+        if calls[0] >= budget:
+            return False
+        calls[0] += 1
+        try:
+            return bool(pred(p))
+        except Exception:
+            return False
+
+    prog = copy.deepcopy(prog)
+    changed = True
+    while changed and calls[0] < budget:
+        changed = False
+        for key in ('funs', 'classes'):
+            i = 0
+            while i < len(prog.get(key, [])):
+                cand = copy.deepcopy(prog)
+                del cand[key][i]
+                if ok(cand):
+                    prog = cand; changed = True
+                else:
+                    i += 1
+        for ci, c in enumerate(prog.get('classes', [])):
+            i = 0
+            while i < len(c.get('members', [])):
+                cand = copy.deepcopy(prog)
+                del cand['classes'][ci]['members'][i]
+                if ok(cand):
+                    prog = cand; c = prog['classes'][ci]; changed = True
+                else:
+                    i += 1
+        # statements: address blocks by index in walk order (stable while we only delete inside one block)
+        bi = 0
+        while True:
+            blocks = list(walk_blocks(prog))
+            if bi >= len(blocks):
+                break
+            i = 0
+            while i < len(blocks[bi]):
+                cand = copy.deepcopy(prog)
+                cb = list(walk_blocks(cand))[bi]
+                st = cb[i]
+                del cb[i]
+                if ok(cand):
+                    prog = cand; blocks = list(walk_blocks(prog)); changed = True
+                    continue
+                # hoist: replace a compound statement by one of its blocks
+                hoisted = False
+                for sub in ([st.get('th'), st.get('el'), st.get('body')] + [b for _, b in st.get('arms', [])] if st['k'] in ('if', 'for', 'forin', 'while', 'match') else []):
+                    if isinstance(sub, list) and sub:
+                        cand = copy.deepcopy(prog)
+                        cb = list(walk_blocks(cand))[bi]
+                        cb[i:i + 1] = copy.deepcopy(sub)
+                        if ok(cand):
+                            prog = cand; blocks = list(walk_blocks(prog)); changed = True; hoisted = True
+                            break
+                if not hoisted:
+                    i += 1
+            bi += 1
+    return prog
